@@ -12,6 +12,7 @@ package main
 // Close one at a time (C14_steps_by_holder / C14_one_at_a_time).
 
 import (
+	"bytes"
 	"encoding/binary"
 	"net"
 	"os"
@@ -37,7 +38,11 @@ type memConn struct {
 	pending []byte      // bytes not yet split into a request
 	replies [][]byte    // answers not yet read
 	readyAt []time.Time // when each of them becomes readable
-	closed  bool
+	blocks  []bool      // a Read waits for this one however long it takes (scripted late completion)
+	// units 97 (brink): the reply comes in two parts, the completing Read returns only when
+	// brinkAfter (the client's read time-out + 2 ms) has passed since the request was written
+	brinkAfter time.Duration
+	closed     bool
 
 	// calls made by the LIBRARY on this transport object (Read, Write, Close, Flush, Set*Deadline)
 	active   int // calls currently inside
@@ -129,14 +134,24 @@ func concReply(kind int, req []byte) []byte {
 	return append(body, crc16le(body)...)
 }
 
-// the unit that is switched off: requests addressed to it are received and never answered
-const concSilentUnit = 99
+// special units of the device
+const (
+	concSilentUnit = 99 // switched off: requests are received and never answered
+	concLongUnit   = 98 // answers with 265 bytes, more than a Modbus frame can have
+	concBrinkUnit  = 97 // completes its reply just after the client's read time-out
+)
 
-func concSilent(kind int, req []byte) bool {
+func concUnit(kind int, req []byte) int {
 	if kind == 0 {
-		return len(req) > 6 && req[6] == concSilentUnit
+		if len(req) > 6 {
+			return int(req[6])
+		}
+		return -1
 	}
-	return len(req) > 0 && req[0] == concSilentUnit
+	if len(req) > 0 {
+		return int(req[0])
+	}
+	return -1
 }
 
 // length of the first request in the stream, 0 if it is not complete yet
@@ -182,9 +197,17 @@ func (c *memConn) Write(p []byte) (int, error) {
 			if n == 0 {
 				break
 			}
-			if !concSilent(c.kind, c.pending[:n]) { // a unit that is switched off never answers
-				c.replies = append(c.replies, concReply(c.kind, c.pending[:n]))
-				c.readyAt = append(c.readyAt, time.Now().Add(c.latency))
+			req := c.pending[:n]
+			switch concUnit(c.kind, req) {
+			case concSilentUnit: // a unit that is switched off never answers
+			case concLongUnit: // a unit that answers with more bytes than any Modbus frame can have
+				c.push(bytes.Repeat([]byte{0x55}, 265), time.Now().Add(c.latency), false)
+			case concBrinkUnit: // the reply is completed just after the client's read time-out
+				r := concReply(c.kind, req)
+				c.push(r[:3], time.Now(), false)
+				c.push(r[3:], time.Now().Add(c.brinkAfter), true)
+			default:
+				c.push(concReply(c.kind, req), time.Now().Add(c.latency), false)
 			}
 			c.pending = append([]byte{}, c.pending[n:]...)
 		}
@@ -192,6 +215,18 @@ func (c *memConn) Write(p []byte) (int, error) {
 		runtime.Gosched() // let another goroutine in, should the client not exclude it
 	}
 	return len(p), nil
+}
+
+func (c *memConn) push(r []byte, at time.Time, block bool) {
+	c.replies = append(c.replies, r)
+	c.readyAt = append(c.readyAt, at)
+	c.blocks = append(c.blocks, block)
+}
+
+func (c *memConn) pop() []byte {
+	r := c.replies[0]
+	c.replies, c.readyAt, c.blocks = c.replies[1:], c.readyAt[1:], c.blocks[1:]
+	return r
 }
 
 func (c *memConn) Read(p []byte) (int, error) {
@@ -214,14 +249,16 @@ func (c *memConn) Read(p []byte) (int, error) {
 			return 0, net.ErrClosed
 		}
 		if len(c.replies) > 0 && !time.Now().Before(c.readyAt[0]) {
-			r := c.replies[0]
-			c.replies = c.replies[1:]
-			c.readyAt = c.readyAt[1:]
+			r := c.pop()
 			c.mu.Unlock()
 			return copy(p, r), nil
 		}
+		mustWait := len(c.replies) > 0 && c.blocks[0]
 		c.mu.Unlock()
 		left := time.Until(deadline)
+		if mustWait && left < 500*time.Microsecond {
+			left = 500 * time.Microsecond // the scripted Read does not return before its data is there
+		}
 		if left <= 0 {
 			return 0, os.ErrDeadlineExceeded
 		}
@@ -239,8 +276,7 @@ func (c *memConn) Close() error {
 	c.mu.Lock()
 	defer c.mu.Unlock()
 	c.closed = true
-	c.replies = nil
-	c.readyAt = nil
+	c.replies, c.readyAt, c.blocks = nil, nil, nil
 	c.pending = nil
 	return nil
 }
@@ -257,8 +293,7 @@ func (c *memConn) Flush() error {
 	// discard the input that has arrived and was not read
 	now := time.Now()
 	for len(c.replies) > 0 && !now.Before(c.readyAt[0]) {
-		c.replies = c.replies[1:]
-		c.readyAt = c.readyAt[1:]
+		c.pop()
 	}
 	return nil
 }
